@@ -40,6 +40,24 @@ def build_lean(targets):
     rc, out = sh(["lake", "build"] + targets, cwd=LEAN_DIR)
     return rc == 0, out
 
+# the integer kernels of /repo/src whose re-translation (py/kernelgen.py -> Gen/Kernel.lean) the property's theorems use
+KERNELS_OF = {
+    "C02": ["into_range"],
+    "C10": ["reserve", "reserve_exact", "shrink_to_fit", "shrink_to", "heap_expand", "expand_exact_default"],
+    "C11": ["stack_build", "stackn_build", "stackn_size", "reserve_one", "expand_one"],
+    "C14": ["iter_len"],
+}
+
+def regenerate_kernels():
+    """re-translate the integer kernels from /repo's working tree; returns {kernel: error}"""
+    import kernelgen
+    txt, errs = kernelgen.translate(os.path.join(REPO, "src"))
+    p = os.path.join(LEAN_DIR, "AnyVecModel", "Gen", "Kernel.lean")
+    old = open(p).read() if os.path.exists(p) else None
+    if old != txt:
+        with open(p, "w") as f: f.write(txt)
+    return errs
+
 def lean_audit(prop):
     """kernel-check the property's theorems; returns dict(obligations, discharged, axioms, problems)"""
     mod = "AnyVecModel.Props.%s" % prop
@@ -47,10 +65,16 @@ def lean_audit(prop):
     res = {"module": mod, "obligations": 0, "discharged": 0, "theorems": [], "axioms": [], "problems": [], "built": False}
     if not os.path.exists(path):
         res["problems"].append("no theorem file for %s" % prop); return res
+    kerrs = regenerate_kernels()
+    for k in KERNELS_OF.get(prop, []):
+        if k in kerrs:
+            res["problems"].append("source tie: the function behind kernel `%s` in /repo/src could not be re-translated (%s)" % (k, kerrs[k]))
+    res["kernels_retranslated"] = KERNELS_OF.get(prop, [])
     ok, out = build_lean([mod, "driver"])
     res["built"] = ok
     if not ok:
         res["problems"].append("lake build failed: " + out[-2000:]); return res
+    if res["problems"]: return res
     # forbidden constructs anywhere in the development (comments stripped)
     bad = re.compile(r"\b(sorry|admit|native_decide|bv_decide|implemented_by|unsafe)\b|^\s*axiom\s|maxHeartbeats\s+0")
     for root, _, files in os.walk(os.path.join(LEAN_DIR, "AnyVecModel")):
